@@ -29,7 +29,7 @@ func main() {
 			fmt.Fprintln(os.Stderr, err)
 			os.Exit(2)
 		}
-		fmt.Printf("rounds=%d\nnew: %v\n", st.Rounds, st.NewFuncs)
+		fmt.Printf("rounds=%d\nnew: %v\nrenamed: %v\n", st.Rounds, st.NewFuncs, st.Renamed)
 		for _, x := range st.Inlined {
 			fmt.Println("inlined:", x)
 		}
@@ -59,7 +59,12 @@ func main() {
 		fmt.Println("# function inventory of the pinned tree (non-test, non-generated packages): helpers that are NOT listed here")
 		fmt.Println("# and are unexported are expanded in place before the rules run (flatten.go)")
 		for _, k := range ks {
-			fmt.Println(k)
+			var fs []string
+			for f := range inv[k].Feats {
+				fs = append(fs, strings.ReplaceAll(strings.ReplaceAll(f, "\t", " "), "\n", " "))
+			}
+			sort.Strings(fs)
+			fmt.Println(k + "\t" + inv[k].Sig + "\t" + strings.Join(fs, "\x1f"))
 		}
 	case "explain":
 		os.Exit(cmdExplain(os.Args[2:]))
